@@ -151,6 +151,9 @@ def needs_clef_error(ag, cx, sel, keep, enc):
     return False
 
 
+_POOL = []
+
+
 def rand_sel(rng):
     r = rng.random()
     if r < 0.15:
@@ -222,7 +225,19 @@ def one(ctx: Ctx, cs, n_triples=110):
         keep = {i for i in range(n) if (ids is None or i in ids) and (tys is None or doc.headers[i] in tys)}
         enc = rng.choice(list(kpx.ENC_BY_NAME))
         kw = {}
-        if inc is not None:
+        if t % 7 == 3:
+            # a selection the caller keeps in a variable and passes again and again (the library's own BEKERN_CATEGORIES among them):
+            # the model works from the NAMES recorded when the object was made
+            if not _POOL:
+                _POOL.extend([(kp.BEKERN_CATEGORIES, tuple(sorted(c.name for c in kp.BEKERN_CATEGORIES))),
+                              ({TC.CORE, TC.SIGNATURES, TC.BARLINES}, ('BARLINES', 'CORE', 'SIGNATURES')),
+                              (set(TC), tuple(sorted(c.name for c in TC))),
+                              ([TC.NOTE_REST, TC.BARLINES, TC.LYRICS], ('BARLINES', 'LYRICS', 'NOTE_REST'))])
+            pobj, inc = _POOL[(t // 7) % len(_POOL)]
+            sel = CT.valid(inc, exc_)
+            kw['include'] = pobj
+            ctx.mon('persistent_include_objects_used')
+        elif inc is not None:
             kw['include'] = [set, list, tuple][t % 3](TC[c] for c in inc)
         if exc_ is not None:
             kw['exclude'] = [set, list, tuple][(t // 3) % 3](TC[c] for c in exc_)
